@@ -42,4 +42,6 @@ d79e38c C32 a subscriber while value-log GC rewrites a file or a merge operator 
 7f35a71 C28 InMemory database and a value over the value threshold but shorter than 1 KiB
 de49e21 C28 a banned namespace and a key of exactly NamespaceOffset+8 bytes
 3d68e02 C17 a MANIFEST cut inside a change set that is longer than the rest of the file
+1f81c9a C23 EncryptionKeyRotationDuration longer than the time since 1970 on a new database
+f91e4b0 C23 a read-only open after the data-key rotation interval has elapsed
 L
